@@ -8,6 +8,23 @@ COMMON_ASSUME = [
 ]
 
 PROPS = {
+    "C09": {
+        "budget_s": {"quick": 120, "thorough": 1500},
+        "floor": {"quick": 20000, "thorough": 300000},
+        "rule": "per ring (BigInt, i64, i128, Gauss/Eisenstein over BigInt|i64|i128, Ratio<BigInt|i64>, FF<2,3,5>, FF2, Poly<x,Q|F3|F2>): seeded matrices m,n in 0..7 (quick) / 0..10 "
+                "(zero, sparse, dense, rank-deficient products, planted U*D*V with non-chained diagonals, diagonal inputs; entries from tiny to 2000-bit for arbitrary precision) x a random subset of the four transform flags; "
+                "checks: D diagonal, zeros last, normalised, d_i | d_{i+1}, diagonal ~ textbook SNF of A, ~ gcds of minors (<= 4x4), every product identity available for the returned transforms "
+                "(D=PAQ, PA=DQ^-1, AQ=P^-1D, A=P^-1DQ^-1, PP^-1=I, QQ^-1=I), lone transforms unimodular, rank()/factors() accessors, no panic on arbitrary-precision rings, hook step counters under a logical bound; "
+                "non-trivial = rank >= 2 or entries beyond 2^53; distinct = hash(matrix, flags)",
+        "assumptions": COMMON_ASSUME + [
+            "machine-integer rings may overflow inside LLL/SNF: counted as inconclusive (the property promises no panic only for arbitrary precision)",
+            "termination is judged on hook step counters against 1000 + 200 (m+n)^2 (bits+16), never on wall-clock time",
+            "polynomial matrices over Q are kept <= 4x4 with small coefficients (coefficient explosion makes larger cases too slow for a per-change check)",
+        ],
+        "technique": "reference-model monitor: real snf() calls on seeded matrices over every supported ring; all matrix identities re-multiplied and invariant factors recomputed by an independent exact dense model; hook step counters as logical clock",
+        "level_text": "Exploration: hundreds of thousands of seeded matrices per run across 17 ring types and all 16 flag subsets; each returned D, P, P^-1, Q, Q^-1 is judged by exact re-multiplication, an independent textbook SNF and minors. Right level: the contract is an input/configuration property with a cheap exact oracle.",
+        "level_note": "Trusts the oracle's dense arithmetic and textbook SNF (self-tested against minors); sampled shapes and entries, not exhaustive.",
+    },
     "C14": {
         "budget_s": {"quick": 60, "thorough": 900},
         "floor": {"quick": 50000, "thorough": 1000000},
